@@ -45,7 +45,7 @@ def gen_b3(repo):
     seps = re.findall(r"\w+\[[^\]]*\]\s*=\s*'(.)'\s*;", single)
     m = X._one(r"IsSampled\(\)\s*\?\s*'(.)'\s*:\s*'(.)'", single, "B3Propagator::Inject sampled ? '1' : '0'")
     if len(seps) != 2:
-        raise X.ExtractError('B3Propagator::Inject: expected two separator writes')
+        raise X.ShapeChanged('B3Propagator::Inject: expected two separator writes')
     out.append(f'def b3InjectSeps : List UInt8 := {X.lean_bytes(bytes(ord(c) for c in seps))}\n')
     out.append(f'def b3InjectSampled : UInt8 := {ord(m.group(1))}\n')
     out.append(f'def b3InjectNotSampled : UInt8 := {ord(m.group(2))}\n')
@@ -75,7 +75,7 @@ def gen_b3(repo):
     lits = re.findall(r"\w+\[([^\]]*)\]\s*=\s*'(.)'\s*;", txt)
     m = X._one(r"\w+\[[^\]]*\+\s*5\s*\]\s*=\s*[\w.()]*IsSampled\(\)\s*\?\s*'(.)'\s*:\s*'(.)'", txt, 'Jaeger sampled digit')
     if len(lits) != 5:
-        raise X.ExtractError('JaegerPropagator::Inject: expected five literal writes')
+        raise X.ShapeChanged('JaegerPropagator::Inject: expected five literal writes')
     out.append(f'/-- the literal bytes `Inject` writes at offsets +0 (after the trace id) and +1..+4 (after the span id) -/\n'
                f'def jaegerInjectLits : List UInt8 := {X.lean_bytes(bytes(ord(c) for _, c in lits))}\n')
     out.append(f'def jaegerInjectSampled : UInt8 := {ord(m.group(1))}\n')
